@@ -34,6 +34,7 @@ class Gen:
         self.c = 0
         self.deleted_bonds: list[int] = []
         self.pending: list[list] = []
+        self.seen_members: set[str] = set()
 
     def fresh_ext(self) -> str:
         self.ext += 1
@@ -56,6 +57,9 @@ class Gen:
         mem = self.members()
         t = rng.weighted([("obj", 35), ("idx", 30), ("label", 15), ("elem", 20)])
         good = rng.below(100) < valid_pct and n > 0
+        self.seen_members.update(mem)
+        if t == "obj" and self.stale_atoms() and rng.below(100) < 10:
+            return "@" + rng.choice(self.stale_atoms())
         if t == "obj":
             if good:
                 return "@" + rng.choice(mem)
@@ -78,8 +82,21 @@ class Gen:
             return "E" + str(rng.choice(elems))
         return "E79"
 
+    def stale_atoms(self):
+        """atoms that were in the molecule earlier in this history and are not now"""
+        mem = set(self.members())
+        return [k for k in self.seen_members if k not in mem]
+
+    def stale_bonds(self):
+        mol = self.r.mol
+        return [b for b, o in self.r.bond_objs.items() if not any(o is x for x in mol.bonds)]
+
     def end(self, foreign_pct):
         rng = self.rng
+        self.seen_members.update(self.members())
+        st = self.stale_atoms()
+        if st and rng.below(100) < 22:
+            return rng.choice(st)      # a stale handle: an atom deleted earlier in this history
         mem = self.members()
         if mem and rng.below(100) >= foreign_pct:
             return rng.choice(mem)
@@ -97,7 +114,26 @@ class Gen:
         kind = rng.weighted([("add", 10), ("new", 8), ("del", 24), ("con", 10), ("bond", 16), ("bonds", 4),
                              ("delb", 8), ("rmsub", 6), ("addh", 5), ("addbad", 3), ("readd", 4),
                              ("mkview", 7 if n else 0), ("vread", 9 if nv else 0), ("vwrite", 8 if nv else 0),
-                             ("pair", 8 if n else 0)])
+                             ("pair", 8 if n else 0), ("rebond", 9 if self.r.bond_objs else 0)])
+        self.seen_members.update(self.members())
+        if kind == "rebond":
+            st = self.stale_bonds()
+            live = [self.r.bond_ids[id(b)] for b in mol.bonds]
+            how = rng.weighted([("one", 5), ("many", 3), ("extend", 3)])
+            if how == "one":
+                pool = st if (st and rng.below(100) < 85) else (live or st)
+                if not pool:
+                    return self.op()
+                return ["rebond", [rng.choice(pool)], "one"]
+            k = rng.range(0, 3)
+            picks = []
+            for _ in range(k):
+                pool = st if (st and rng.below(100) < 88) else (live or st)
+                if pool:
+                    picks.append(rng.choice(pool))       # may repeat a bond within the call
+            if rng.below(100) < 80:
+                picks = list(dict.fromkeys(picks))
+            return ["rebond", picks, how]
         if kind == "mkview":
             how = rng.weighted([("sub", 5), ("cls", 3), ("heavy", 2)])
             k = rng.range(0, min(4, n))
@@ -131,7 +167,7 @@ class Gen:
             return ["add", self.fresh_ext(), rng.choice([1, 6, 7, 8, 16]), rng.choice([None, f"A{self.ext}", "DUP"]),
                     self.fresh_xyz(), q]
         if kind == "readd":
-            pool = self.nonmembers() if rng.below(100) < 70 else self.members()
+            pool = (self.stale_atoms() or self.nonmembers()) if rng.below(100) < 75 else self.members()
             if not pool:
                 return self.op()
             return ["readd", rng.choice(pool), self.fresh_xyz(), None]
@@ -171,8 +207,8 @@ class Gen:
                 pairs.append([x, y])
             return ["bonds", pairs]
         if kind == "delb":
-            if self.deleted_bonds and rng.below(100) < 12:
-                return ["delb", rng.choice(self.deleted_bonds)]
+            if self.stale_bonds() and rng.below(100) < 15:
+                return ["delb", rng.choice(self.stale_bonds())]
             if not mol.n_bonds:
                 return self.op()
             b = rng.choice(mol.bonds)
